@@ -52,6 +52,48 @@ CHECKS = {
             "gaps, non-dividing), trees, and at 2*eps(oversamp, width) for the Toeplitz NUFFT "
             "normal; <A.N x, x> must be real non-negative.",
             "DESIGN.md section 4, C04"),
+    "C06": ("reference-model monitor: explicit NDFT matrix vs real nufft with a guarded relative "
+            "l2 metric against the stated thresholds; periodicity, exact adjointness, Gram and "
+            "monotone-improvement oracles; directed worst-case probe (known finding)",
+            "Every generated case (1-3 transform dims, odd/even, batch axes, 6 coordinate "
+            "classes, 6 image classes, 9 (oversamp, width) pairs) runs the real nufft / "
+            "nufft_adjoint and compares with the explicit non-uniform DFT matrix: error below "
+            "3 % / 0.3 % where the statement gives a figure, periodic to 1e-9, adjoint to 1e-10, "
+            "Gram within 2 eps. The worst-case probe reproduces the known finding "
+            "C06/kb-kernel-worstcase-multidim on every run.",
+            "DESIGN.md section 4, C06"),
+    "C07": ("reference-model monitor: pure-Python kernel-sum loop written from the docstring "
+            "(independent I0 power series) vs real interpolate/gridding; exact transposition; "
+            "numba bounds-check sanitizer (NUMBA_BOUNDSCHECK=1) in both tiers",
+            "Each case runs the real JIT kernels under numba bounds checking and compares every "
+            "output element with the documented kernel sum (1e-12 splines, 2e-6 Kaiser-Bessel), "
+            "over 1-3 dims incl. length-1 axes, batch shapes, ceil/floor-tie, negative, far "
+            "out-of-grid and duplicate coordinates, scalar and per-axis fractional widths and "
+            "parameters; <interp x, y> = <x, gridding y> to 1e-12.",
+            "DESIGN.md section 4, C07"),
+    "C08": ("reference-model monitor: explicit loop definition of strided multi-channel "
+            "convolution vs real convolve on random pairs and unit impulses; computed-or-"
+            "rejected postcondition; adjoint inner-product identities and returned shapes",
+            "For every generated (D, lengths incl. filter longer than data, batch, channels, "
+            "strides, mode, real/complex/mixed dtypes) the real convolve must raise or return "
+            "exactly the definition's array (shape included) at 1e-10; data and filter adjoints "
+            "are checked by <conv(d,f),y> identities on complex operands.",
+            "DESIGN.md section 4, C08"),
+    "C09": ("reference-model monitor with labelled inputs: every output element names its source "
+            "element and is compared exactly with independent index-map definitions; numba "
+            "bounds-check sanitizer on for the block kernels",
+            "resize (default and explicit shifts), circshift, flip, downsample, upsample, "
+            "array_to_blocks, blocks_to_array and their Linop wrappers are run on arrays whose "
+            "values are their own flat index; equality with the documented placement is exact; "
+            "overlapping, tiling, gapped and non-dividing strides in 1-3 block dims.",
+            "DESIGN.md section 4, C09"),
+    "C10": ("postcondition monitor on the real Wavelet/InverseWavelet/fwt/iwt: advertised "
+            "coefficient shape, isometry, perfect inverse and adjoint identity for every "
+            "orthogonal PyWavelets family member",
+            "All 75 haar/db/sym/coif names x shapes (1-3 dims, odd, shorter than the filter) x "
+            "axes subsets (negative too) x levels x real/complex: ||Wx|| = ||x||, W^H W x = x, "
+            "<Wx,y> = <x,W^H y> at 1e-9 and exact advertised shape.",
+            "DESIGN.md section 4, C10"),
     "C05": ("reference-model monitor: explicit DFT-matrix oracle on generated shapes/axes/"
             "center/norm/oshape/dtype, plus round-trip, Parseval and dtype postconditions",
             "Every generated configuration is executed through the real fft/ifft (and linop.FFT/"
